@@ -280,7 +280,7 @@ class Create:
     def register_rank(self, text, node):
         if self.rank_text is None:
             self.rank_text = text
-            self.rank_src = ast.get_source_segment(self.source, node)
+            self.rank_src = ast.unparse(node)
         elif self.rank_text != text:
             raise U("two different rank expressions int(...) flow into the class boundaries", node)
 
@@ -847,17 +847,25 @@ class Init:
                 if self.sorted_def is not None or cur != "bins":
                     raise U("second sortedness test in __init__", st)
                 acts = [x for x in st.body if not self.is_warn(x)]
-                if not (len(acts) == 1 and isinstance(acts[0], ast.Expr) and call_name(acts[0].value) == self.P + ".sort"):
-                    raise U("the sortedness test does not guard exactly `<edge list>.sort()`", st)
-                call = acts[0].value
+                # either the in-place `<edge list>.sort()` or the copy `<edge list> = sorted(<edge list>)`
+                call = None
+                if len(acts) == 1 and isinstance(acts[0], ast.Expr) and call_name(acts[0].value) == self.P + ".sort" \
+                        and not acts[0].value.args:
+                    call = acts[0].value
+                elif len(acts) == 1 and isinstance(acts[0], ast.Assign) and len(acts[0].targets) == 1 \
+                        and isinstance(acts[0].targets[0], ast.Name) and acts[0].targets[0].id == self.P \
+                        and call_name(acts[0].value) == "sorted" and len(acts[0].value.args) == 1 \
+                        and isinstance(acts[0].value.args[0], ast.Name) and acts[0].value.args[0].id == self.P:
+                    call = acts[0].value
+                if call is None:
+                    raise U("the sortedness test does not guard exactly `<edge list>.sort()` / "
+                            "`<edge list> = sorted(<edge list>)`", st)
                 rev = False
-                if call.args:
-                    raise U("sort() with positional arguments", call)
                 for kw in call.keywords:
                     if kw.arg == "reverse" and isinstance(kw.value, ast.Constant) and isinstance(kw.value.value, bool):
                         rev = kw.value.value
                     else:
-                        raise U("sort() with a key / non-literal reverse flag", call)
+                        raise U("sort with a key / non-literal reverse flag", call)
                 self.sorted_def, (a, b) = self.sorted_loop(st.test.operand.args[0])
                 nb += 1
                 new = f"bins{nb}"
